@@ -36,7 +36,8 @@ import pyfacts
 import sched
 
 ID = 'C18'
-LEAN_MODULES = ['Yaql.Props.C18', 'Yaql.Props.C18Objs', 'Yaql.Props.C18Gen', 'Yaql.Props.C18Eval']
+LEAN_MODULES = ['Yaql.Props.C18', 'Yaql.Props.C18Objs', 'Yaql.Props.C18Gen', 'Yaql.Props.C18Eval', 'Yaql.Props.EvalStore',
+                'Yaql.Props.C18Store']
 REQUIRED_THEOREMS = [
     'Yaql.Props.C18.isolation', 'Yaql.Props.C18.isolation_exact', 'Yaql.Props.C18.interleaving',
     'Yaql.Props.C18.isolation_benign_cache', 'Yaql.Props.C18.oblivious_of_denotation',
@@ -46,6 +47,10 @@ REQUIRED_THEOREMS = [
     'Yaql.Props.C18.shared_lazy_object_interferes',
     'Yaql.Props.C18.refMachine_readOnly', 'Yaql.Props.C18.eval_model_isolated',
     'Yaql.Props.C18.eval_model_returns_framed',
+    'Yaql.Props.C18.storeEval_frame', 'Yaql.Props.C18.evalS_writes_private', 'Yaql.Props.C18.evalS_isolated',
+    'Yaql.Props.EvalStore.log_disciplined', 'Yaql.Props.EvalStore.writes_fresh',
+    'Yaql.Props.EvalStore.store_prefix_unchanged', 'Yaql.Props.EvalStore.store_extends',
+    'Yaql.Props.EvalStore.hostEval_extends',
     'Yaql.Props.C18Gen.no_shared_writes', 'Yaql.Props.C18Gen.reachable_sites_modelled',
     'Yaql.Props.C18Gen.table_nonvacuous']
 TRUSTED = ['harness/sched.py (real threads blocked at scheduling points, released one at a time)',
@@ -1516,6 +1521,11 @@ def run(env, res):
             part_c(env, res, rng, hist, time.time() + (15 if tier == 'quick' else 90))
         if not hard(res):
             part_d(env, res, rng, hist)
+        if not hard(res):
+            # (G) what evaluations write: generated programs of the C04 fragment on instrumented context classes, alone
+            # and 2-4 at a time, against the store-passing evaluator model (props/evalstore.py)
+            from props import evalstore
+            evalstore.run(env, res, hist, ID, threads=True)
         # (E) the dynamic side of the generated table is part of (A): counted here
         hist['E_ownership'] = dict(context_writes_checked=stats_a.get('ctx_writes', 0),
                                    lazy_object_writes_checked=stats_a.get('lazy_writes', 0))
@@ -1785,6 +1795,10 @@ def directed(env, res, rng, gen, hist):
 
 def replay(env, res, case):
     kind = case.get('kind')
+    if case.get('part') == 'evalstore':
+        from props import evalstore
+        evalstore.run(dict(env, replay_case=case), res, res.extra.setdefault('histogram', {}), ID, threads=True)
+        return res
     if kind == 'stmt':
         owners = Owners()
         owners.install()
